@@ -617,7 +617,16 @@ def forwarded_yields(chk: Check, eng: Engine, rule: str) -> None:
                     attr = self_attr(target)
                     used = any(isinstance(y, (ast.YieldFrom, ast.Yield)) and y.value is not None and any(self_attr(x) == attr for x in ast.walk(y.value))
                                for m in (f.cls.methods.values() if f.cls else []) for y in walk_local(m.node))
-            if used:
+            lost = None
+            if used and isinstance(target, ast.Name):
+                lost = _collected_yields_can_be_lost(eng, f, c, target.id)
+            elif used and isinstance(target, ast.Attribute) and self_attr(target) and f.cls is not None:
+                lost = _buffer_flush_is_conditional(eng, f.cls, self_attr(target))
+            if used and lost:
+                chk.bad(rule, eng.relfile(f), c.lineno, f.fq, f"the trees `{short(c, 50)}` yields are collected in `{norm(target)}`, but {lost}",
+                        "the evaluator has already recorded them as reported: on that path a tree that satisfies every constraint is never handed out as a solution",
+                        keyparts=f"yields-lost-on-a-path|{f.name}|{norm(target)}")
+            elif used:
                 chk.ok(rule, f.fq, c.lineno, f"`{short(c, 40)}` is collected and its yields (`{norm(target)}`) are passed on")
             else:
                 chk.bad(rule, eng.relfile(f), c.lineno, f.fq, f"the trees `{short(c, 50)}` yields are collected and dropped" + (f" (bound to `{norm(target)}`, never yielded)" if target is not None else ""),
@@ -625,6 +634,89 @@ def forwarded_yields(chk: Check, eng: Engine, rule: str) -> None:
                         "first time - is never handed out as a solution", keyparts=f"yields-dropped|{f.name}")
     if n < 6:
         raise AnalysisError(f"only {n} evaluator call sites found in the search pipeline")
+
+
+def _collected_yields_can_be_lost(eng: Engine, f: FuncInfo, call: ast.Call, name: str) -> Optional[str]:
+    """Flow-sensitive part of R03-f for a local: from the statement that binds the collected yields there must be no way to the end of the
+    function, to another binding of the same name or round the loop to the same statement that avoids every statement handing the list on."""
+    cfg = eng.cfg(f)
+    defs = [n.id for n in cfg.nodes if n.kind == "stmt" and isinstance(n.ast, ast.Assign) and any(isinstance(x, ast.Name) and x.id == name for t in n.ast.targets for x in ast.walk(t))]
+    here = [d for d in defs if any(x is call for x in ast.walk(cfg.nodes[d].ast))]
+    if not here:
+        return None
+    uses = []
+    for n in cfg.nodes:
+        if n.ast is None or n.id in defs:
+            continue
+        roots = [n.ast.test] if n.kind in ("if", "while") and hasattr(n.ast, "test") else [n.ast.iter] if n.kind == "for" and hasattr(n.ast, "iter") else [n.ast] if n.kind == "stmt" else []
+        for r in roots:
+            for y in ast.walk(r):
+                if isinstance(y, (ast.YieldFrom, ast.Yield, ast.Return)) and y.value is not None and any(isinstance(x, ast.Name) and x.id == name for x in ast.walk(y.value)):
+                    uses.append(n.id)
+                if isinstance(y, ast.Call) and call_name(y) in ("extend", "append", "update", "add", "list", "next", "iter") and any(isinstance(x, ast.Name) and x.id == name for a_ in y.args for x in ast.walk(a_)):
+                    uses.append(n.id)
+            if n.kind == "for" and isinstance(getattr(n.ast, "iter", None), ast.Name) and n.ast.iter.id == name:
+                uses.append(n.id)
+    # a test that repeats a conjunct of the enclosing loop's condition, with nothing assigned to its variables in between, cannot fail
+    infeasible = set()
+    from ..core import parents_map, ancestors
+    pm = parents_map(f.node)
+    for n in cfg.nodes:
+        if n.kind == "if" and isinstance(n.ast, ast.If):
+            for a in ancestors(pm, n.ast):
+                if isinstance(a, ast.While):
+                    conj = a.test.values if isinstance(a.test, ast.BoolOp) and isinstance(a.test.op, ast.And) else [a.test]
+                    if any(norm(c) == norm(n.ast.test) for c in conj):
+                        names = {x.id for x in ast.walk(n.ast.test) if isinstance(x, ast.Name)}
+                        assigned_before = any(isinstance(st, (ast.Assign, ast.AugAssign)) and st.lineno < n.ast.lineno and
+                                              any(isinstance(x, ast.Name) and x.id in names for t in (st.targets if isinstance(st, ast.Assign) else [st.target]) for x in ast.walk(t))
+                                              for st in ast.walk(a) if st is not n.ast)
+                        if not assigned_before:
+                            infeasible.add((n.id, "false"))
+                            if not n.ast.orelse:
+                                infeasible.add((n.id, "back"))  # the false edge of an if without else at the end of a loop body
+                    break
+    d = here[0]
+    p = cfg.find_path(d, [cfg.exit] + defs, avoid=uses, ignore_edges=infeasible)
+    if p is None:
+        return None
+    last = cfg.nodes[p[-1][0]]
+    where = "the end of the function" if last.id == cfg.exit else f"line {last.line}, where `{name}` is bound again"
+    via = next((cfg.nodes[i].line for i, lab in p if lab in ("false", "true") and cfg.nodes[i].kind == "stmt"), None)
+    return f"there is a path to {where} on which they are not handed on" + (f" (through line {via})" if via else "")
+
+
+def _buffer_flush_is_conditional(eng: Engine, cls: ClassInfo, attr: str) -> Optional[str]:
+    """Yields stored on the object (`self._initial_solutions`) have to be handed out by the generator that runs the search, before anything else
+    and on every path: the flush is a top-level statement at the head of that generator, or of a generator it delegates to unconditionally
+    at its head.  (The protocol-mode generator is exempt, see R20-d.)"""
+    def flushes(st: ast.stmt) -> bool:
+        return any(isinstance(y, (ast.Yield, ast.YieldFrom)) and y.value is not None and any(self_attr(x) == attr for x in ast.walk(y.value)) for y in ast.walk(st))
+
+    def head_flush(m: FuncInfo, depth: int = 0) -> bool:
+        for st in m.node.body:  # type: ignore[attr-defined]
+            if isinstance(st, ast.Expr) and isinstance(st.value, ast.Constant):
+                continue
+            if flushes(st) and isinstance(st, (ast.While, ast.For, ast.Expr)) and not (isinstance(st, ast.While) and isinstance(st.test, ast.Constant)):
+                return True
+            if isinstance(st, ast.Expr) and isinstance(st.value, ast.YieldFrom) and isinstance(st.value.value, ast.Call) and self_attr(st.value.value.func) and depth < 3:
+                g = cls.lookup(st.value.value.func.attr)
+                if g is not None and head_flush(g, depth + 1):
+                    return True
+                continue
+            if isinstance(st, (ast.Assign, ast.AnnAssign)) or (isinstance(st, ast.Expr) and isinstance(st.value, ast.Call) and "LOGGER" in norm(st.value.func)):
+                continue
+            return False
+        return False
+
+    runners = [m for m in cls.methods.values() if m.is_generator() and m.name != "_generate_io"
+               and any(isinstance(w, ast.While) and isinstance(w.test, ast.Constant) and w.test.value is True for w in walk_local(m.node))]
+    if not runners:
+        return None
+    for m in runners:
+        if not head_flush(m):
+            return f"the generator that runs the search ({m.qualname}) does not hand out `self.{attr}` unconditionally at its head"
+    return None
 
 
 def run(chk: Check, eng: Engine) -> None:
@@ -813,8 +905,12 @@ _EV = "src/fandango/evolution/evaluation.py"
 _FT = "src/fandango/constraints/fitness.py"
 _CMP = "src/fandango/constraints/comparison.py"
 MUTANTS = [
+    M("seed-solutions-flushed-only-when-refilling", "src/fandango/evolution/algorithm.py", "        while self._initial_solutions:\n            yield self._initial_solutions.pop(0)\n\n        if len(self.population) < self.population_size:\n            yield from self.generate_initial_population()\n",
+      "        if len(self.population) < self.population_size:\n            while self._initial_solutions:\n                yield self._initial_solutions.pop(0)\n            yield from self.generate_initial_population()\n", "R03-f"),
+    M("refill-reports-only-unique-candidates", "src/fandango/evolution/population.py", "                yield from found_solution\n                yield from new_found_solution\n                if not added:\n                    attempts += 1\n",
+      "                if added:\n                    yield from found_solution\n                    yield from new_found_solution\n                else:\n                    attempts += 1\n", "R03-f"),
     M("fix-phase-drops-the-evaluators-yields", "src/fandango/evolution/algorithm.py", "                ) = yield from self.evaluator.evaluate_individual(ind)\n", "                ) = GeneratorWithReturn(self.evaluator.evaluate_individual(ind)).collect()[1]\n", "R03-f"),
-    M("refill-forgets-first-evaluation", "src/fandango/evolution/population.py", "                    yield from found_solution\n                    yield from new_found_solution\n", "                    yield from new_found_solution\n", "R03-f"),
+    M("refill-forgets-first-evaluation", "src/fandango/evolution/population.py", "                yield from found_solution\n                yield from new_found_solution\n", "                yield from new_found_solution\n", "R03-f"),
     M("holding-comparison-scored-by-distance", _CMP, "        if self._operator.compare(left, right):\n            return 1.0, NopSuggestion()\n",
       "        if self._operator.compare(left, right) and self._operator == Comparison.EQUAL:\n            return 1.0, NopSuggestion()\n", "R03-e"),
     M("seen-before-threshold", _EV, "        if fitness >= self._expected_fitness and key not in self._solution_set:\n            self._solution_set.add(key)\n            yield individual\n",
